@@ -240,7 +240,7 @@ func checkC19(c *km.Ctx) {
 	if fn := c.MustFunc("R-C19-3", "lib/client/sshagent", "withAddedKeyUpsertCertIntoAgentConnection"); fn != nil {
 		var del, add ssa.CallInstruction
 		for _, ci := range km.CallsIn(fn) {
-			if cal := km.StaticCallee(ci.Common()); cal != nil && cal.Name() == "deleteDuplicateEntries" {
+			if cal := km.StaticCallee(ci.Common()); cal != nil && km.NameOf(cal) == "deleteDuplicateEntries" {
 				del = ci
 			}
 			if ci.Common().IsInvoke() && ci.Common().Method.Name() == "Add" {
